@@ -34,9 +34,9 @@ const MIN_DEPTH_SPEC: usize = 100; // "the required number of blocks"
 const PEER: [u8; 33] = [2u8; 33];
 const NCH: u64 = 4;
 
-fn fid(d: u64) -> u64 { 10 * d + 1 }
-fn did(d: u64) -> u64 { 10 * d + 2 }
-fn mid(d: u64) -> u64 { 10 * d + 3 }
+pub fn fid(d: u64) -> u64 { 10 * d + 1 }
+pub fn did(d: u64) -> u64 { 10 * d + 2 }
+pub fn mid(d: u64) -> u64 { 10 * d + 3 }
 fn uid(d: u64) -> u64 { 10 * d + 4 }
 fn sid(d: u64) -> u64 { 10 * d + 5 }
 fn tid(d: u64) -> u64 { 10 * d + 6 } // spend of the HTLC output of U_d
@@ -56,16 +56,16 @@ fn services(persister: Arc<dyn Persist>) -> NodeServices {
     }
 }
 
-struct W15 {
-    persister: Arc<dyn Persist>,
-    node: Arc<Node>,
+pub struct W15 {
+    pub persister: Arc<dyn Persist>,
+    pub node: Arc<Node>,
     seed: [u8; 32],
-    txs: BTreeMap<u64, Transaction>,
-    ids: HashMap<Txid, u64>,
+    pub txs: BTreeMap<u64, Transaction>,
+    pub ids: HashMap<Txid, u64>,
     kinds: BTreeMap<u64, String>,
-    blocks: Vec<Block>,
-    chain: Vec<Vec<u64>>,
-    cb: u32,
+    pub blocks: Vec<Block>,
+    pub chain: Vec<Vec<u64>>,
+    pub cb: u32,
 }
 
 fn chan_id(d: u64) -> ChannelId {
@@ -73,7 +73,7 @@ fn chan_id(d: u64) -> ChannelId {
 }
 
 impl W15 {
-    fn new() -> W15 {
+    pub fn new() -> W15 {
         let persister: Arc<dyn Persist> = Arc::new(KVVPersister(MemoryKVVStore::new([7u8; 16]), JsonFormat));
         let mut seed = [0u8; 32];
         seed.copy_from_slice(&hex::decode(TEST_SEED[1]).unwrap());
@@ -115,12 +115,12 @@ impl W15 {
         format!("T{}:{}:{}:{}", id, ins.join(";"), t.output.len(), self.kinds.get(&id).cloned().unwrap_or("p".into()))
     }
 
-    fn new_channel(&self, d: u64) -> Result<(), String> {
+    pub fn new_channel(&self, d: u64) -> Result<(), String> {
         self.node.new_channel(d, &PEER, &self.node).map(|_| ()).map_err(|e| e.message().to_string())
     }
 
     /// setup_channel + what sign_onchain_tx does for the funding inputs + the commitment/sweep of this channel
-    fn setup(&mut self, d: u64) -> Result<(), String> {
+    pub fn setup(&mut self, d: u64) -> Result<(), String> {
         let f = funding_tx(d);
         let fo = OutPoint::new(f.compute_txid(), 0);
         let mut setup = make_test_channel_setup();
@@ -213,7 +213,7 @@ impl W15 {
         }
     }
 
-    fn restart(&mut self) {
+    pub fn restart(&mut self) {
         let (node_id, entry) = self.persister.get_nodes().unwrap().into_iter().next().unwrap();
         let node = Node::restore_node(&node_id, entry, &self.seed, services(self.persister.clone())).unwrap();
         self.node = node;
@@ -221,7 +221,7 @@ impl W15 {
 
     fn dbid_of(&self, id: &ChannelId) -> u64 { id.oid() }
 
-    fn digest(&self) -> String {
+    pub fn digest(&self) -> String {
         let mut ch = Vec::new();
         for (id, slot) in self.node.get_channels().iter() {
             let s = slot.lock().unwrap();
@@ -343,7 +343,9 @@ impl Group for C15 {
                 if t[0] == "add" || t[0] == "remove" { let mut l = t[0].to_string(); for id in &t[1..] { l.push(' '); l.push_str(&tok(id.parse().unwrap())); } l } else { x.to_string() }
             }).collect()
         };
-        vec![
+        // F18 witness: monitor created after its funding tx confirmed, then that block is reorged out
+        let late = vec![mk("init|new 3|add 31|setup 3|remove 31|add 31|add 33|heartbeat")];
+        let mut v = vec![
             // forget, restart, id reuse attempts
             mk("init|new 2|new 3|forget 3|restart|new 3|new 2|new 1|new 4|heartbeat"),
             // mutual close buried exactly 99 / 100 deep
@@ -356,7 +358,9 @@ impl Group for C15 {
             mk("init|new 1|setup 1|add 11|add 14|add 15 16|add 17|remove 17|add 17|forget 1|addn 98|heartbeat|addn 1|heartbeat|addn 1|heartbeat"),
             // unilateral close, swept later; double spend on another channel
             mk("init|new 1|new 2|setup 1|setup 2|add 11 22|add 14|forget 1|forget 2|addn 50|add 15 16|add 17|addn 60|heartbeat|addn 45|heartbeat"),
-        ]
+        ];
+        v.extend(late);
+        v
     }
     fn gen_case(&self, rng: &mut Rng, tier: Tier) -> Vec<String> {
         // the generator runs a live node alongside, so that blocks only carry transactions of channels
@@ -368,6 +372,33 @@ impl Group for C15 {
             apply_basic(w, &op);
             ops.push(op);
         };
+        if super::c13::FUNDING_UNDO_TOLERANT && rng.chance(1, 8) {
+            // late set-up family (finding F18, only where the source tolerates it): the funding transaction is
+            // confirmed BEFORE setup_channel creates the monitor (a counterparty broadcasting early); then a reorg
+            // disconnects that block (must not abort), the funding is re-mined and the channel lives on
+            let d = rng.range(1, NCH);
+            let fl = { let mut l = "add".to_string(); l.push(' '); l.push_str(&tok(fid(d))); l };
+            push(&mut w, &mut ops, format!("new {}", d));
+            for _ in 0..rng.below(2) { push(&mut w, &mut ops, "add".into()); }
+            push(&mut w, &mut ops, fl.clone());
+            let gap = rng.below(2);
+            for _ in 0..gap { push(&mut w, &mut ops, "add".into()); }
+            push(&mut w, &mut ops, format!("setup {}", d));
+            let after = rng.below(2);
+            for _ in 0..after { push(&mut w, &mut ops, "add".into()); }
+            if rng.chance(1, 3) { push(&mut w, &mut ops, "restart".into()); }
+            for _ in 0..(gap + after) { push(&mut w, &mut ops, "remove".into()); }
+            push(&mut w, &mut ops, fl.replacen("add", "remove", 1));
+            if rng.chance(2, 3) {
+                push(&mut w, &mut ops, fl.clone());
+                push(&mut w, &mut ops, { let mut l = "add".to_string(); l.push(' '); l.push_str(&tok(mid(d))); l });
+                push(&mut w, &mut ops, format!("forget {}", d));
+                push(&mut w, &mut ops, "addn 99".into());
+                push(&mut w, &mut ops, "heartbeat".into());
+            }
+            push(&mut w, &mut ops, "heartbeat".into());
+            return ops;
+        }
         if rng.chance(2, 5) {
             // directed family: unilateral close whose outputs (ours, the HTLC, the second-level output) are swept
             // over several blocks; reorg of a suffix of the sweep blocks (re-mined or not); forget; burial of the
@@ -562,7 +593,9 @@ impl Group for C15 {
             if res.starts_with("panic") {
                 dead = true;
                 co.tags.insert(format!("abort:{}:{}", t[0], res.chars().take(90).collect::<String>()));
-                co.violations.push(Violation { kind: "abort".into(), desc: format!("{} panicked: {}", op, res), at: i });
+                // finding F18: undoing the confirmation of a funding tx that was confirmed before the monitor existed
+                let late_monitor = t[0] == "remove" && res.contains("left == right") && res.contains("left: None");
+                co.violations.push(Violation { kind: if late_monitor { "late-monitor-funding-reorg-abort".into() } else { "abort".into() }, desc: format!("{} panicked: {}", op, res), at: i });
                 co.out.push("panic".into());
                 continue;
             }
